@@ -141,6 +141,8 @@ def registered_strata(ctx):
     S["inline2"] = (inline2(), True)
     edges = docs.leaf_edges()
     S["leaf-edges"] = (edges + [wrap(d, k) for d in edges[::3] for k in ("bq", "ul")], True)
+    more = docs.multi_pairs() + docs.container_pairs() + docs.corpus_marker_variants() + docs.link_edges()
+    S["nesting-variants"] = (docs.sample(ctx.rng, more, 2500) if q else more, not q)
     S["pragma"] = (list(dict.fromkeys(x for d in pr_base for x in with_pragma(d))) +
                    [PRAGMA, PRAGMA + "\n", PRAGMA + "\n" + PRAGMA + "\n", "<!--\tpyml -->\na\n", "a\n<!-- pyml\t-->\n"], False)
     return S
